@@ -95,7 +95,8 @@ def execute(sc):
     def log_with_proj(e, **kw):
         d = _orig_log(e, **kw)
         b = state.get('buf')
-        if b is not None and e in ('Submit', 'Produced', 'ProducerDone', 'FuncStart', 'FuncEnd', 'WaitCall', 'WaitRet'):
+        if b is not None and e in ('Submit', 'Produced', 'ProducerDone', 'FuncStart', 'FuncEnd', 'WaitCall', 'WaitRet',
+                                   'ProducerFailed', 'Shutdown', 'ShutdownDone'):
             try:
                 d['st'] = {'q': b.q.qsize(), 'flag': bool(b.event.is_set())}
             except Exception:
